@@ -153,7 +153,7 @@ def HOST : Bytes := b!"host"
 def AUTHORITY : Bytes := b!":authority"
 
 /-- `signed_headers.sort()`. -/
-def sortNames (l : List Bytes) : List Bytes := List.mergeSort l bytesLe
+def sortNames (l : List Bytes) : List Bytes := sortBy bytesLe l
 
 /-- First value of a map entry (`v[0]`); the maps never hold an empty value list. -/
 def firstOf (m : List (Bytes × List Bytes)) (k : Bytes) : Option Bytes :=
